@@ -208,6 +208,82 @@ impl<'a> Cx<'a> {
 // C13 unbuffered: one datagram per emit, exact bytes, exact destination, truthful result
 // ------------------------------------------------------------------------------------------------
 
+
+/// An address list whose FIRST entry is of the other address family than the socket (an IPv6 address for an IPv4
+/// socket or the other way round) and whose second entry the socket could reach: the sink was given a list, the first
+/// address is the destination - every datagram is addressed to it (the socket refuses: that is the socket's answer, and
+/// the caller gets it), nothing goes to the second one.
+fn case_mixed_family(cx: &mut Cx, cs: u64) {
+    let mut r = Rng::new(cs ^ 0xFA41);
+    if UdpSocket::bind("[::1]:0").is_err() {
+        return;
+    }
+    let sock_v6 = r.chance(1, 2);
+    let (sock_lo, other_lo) = if sock_v6 { ("[::1]:0", "127.0.0.1:0") } else { ("127.0.0.1:0", "[::1]:0") };
+    let first_recv = UdpSocket::bind(other_lo).unwrap();
+    let second_recv = UdpSocket::bind(sock_lo).unwrap();
+    first_recv.set_nonblocking(true).unwrap();
+    second_recv.set_nonblocking(true).unwrap();
+    let list: Vec<SocketAddr> = vec![first_recv.local_addr().unwrap(), second_recv.local_addr().unwrap()];
+    let sock = UdpSocket::bind(sock_lo).unwrap();
+    let fd = sock.as_raw_fd();
+    let buffered = r.chance(1, 2);
+    let cap = *r.pick(&[16usize, 64, 512]);
+    let sink: Box<dyn MetricSink> = if buffered {
+        match r.below(2) {
+            0 => Box::new(BufferedUdpMetricSink::with_capacity(&list[..], sock, cap).expect("BufferedUdpMetricSink::with_capacity")),
+            _ => Box::new(BufferedUdpMetricSink::from(&list[..], sock).expect("BufferedUdpMetricSink::from")),
+        }
+    } else {
+        Box::new(UdpMetricSink::from(&list[..], sock).expect("UdpMetricSink::from"))
+    };
+    let label = if buffered { "BufferedUdpMetricSink(mixed-family list)" } else { "UdpMetricSink(mixed-family list)" };
+    cx.rep.eval();
+    cx.rep.obs("address_lists_whose_first_entry_is_of_the_other_family", 1);
+    let mark = interpose::mark();
+    let n = r.range(3, 12) as usize;
+    let mut results = Vec::new();
+    for k in 0..n {
+        let m = format!("mixed.n{}:{}|c", k, r.below(1000));
+        results.push((m.clone(), panics::guard(|| sink.emit(&m))));
+    }
+    let _ = panics::guard(|| sink.flush());
+    let recs: Vec<interpose::Rec> = interpose::since(mark).into_iter().filter(|x| x.fd == fd).collect();
+    let trace = jobj! {"sink" => label, "socket" => sock_lo, "address_list" => format!("{:?}", list),
+        "sendto_calls" => Json::Arr(recs.iter().map(|x| jobj!{"len" => x.payload.len(), "result" => x.result as i64, "errno" => x.errno, "dest" => format!("{:?}", decode_dest_inet(&x.dest))}).collect())};
+    if let Some(x) = recs.iter().find(|x| decode_dest_inet(&x.dest) != Some(list[0])) {
+        cx.violation("C13", "destination", "wrong-destination", format!("{}: the sink was built from {:?} on a socket bound to {}; a datagram was addressed to {:?}, not to the first address", label, list, sock_lo, decode_dest_inet(&x.dest)), trace.clone(), cs);
+        return;
+    }
+    let mut buf = [0u8; 2048];
+    if second_recv.recv(&mut buf).is_ok() {
+        cx.violation("C13", "destination", "decoy-received", format!("{}: a datagram arrived at the SECOND address of the list {:?}", label, list), trace.clone(), cs);
+        return;
+    }
+    if !buffered {
+        if recs.len() != n {
+            cx.violation("C13", "one-datagram-per-emit", "sendto-count", format!("{}: {} sendto calls for {} emits", label, recs.len(), n), trace.clone(), cs);
+            return;
+        }
+        for ((m, res), rec) in results.iter().zip(recs.iter()) {
+            let ok = match (res, rec.result) {
+                (Ok(Ok(nb)), sent) if sent >= 0 => *nb as isize == sent,
+                (Ok(Err(e)), sent) if sent < 0 => e.raw_os_error() == Some(rec.errno),
+                _ => false,
+            };
+            if !ok {
+                cx.violation("C13", "returns-bytes-sent", "result-contradicts-socket", format!("{}: emit({:?}) returned {:?} but sendto returned {} (errno {})", label, m, res, rec.result, rec.errno), trace.clone(), cs);
+                return;
+            }
+        }
+    } else if recs.is_empty() {
+        cx.violation("C13", "one-datagram-per-emit", "sendto-count", format!("{}: {} emits and a flush made no sendto call at all", label, n), trace, cs);
+        return;
+    }
+    cx.rep.obs("kernel_socket_errors_checked", recs.iter().filter(|x| x.result < 0).count() as u64);
+    cx.rep.distinct(&format!("mixed|{}|{}|{}", sock_v6, buffered, cap));
+}
+
 fn case_unbuffered(cx: &mut Cx, cs: u64) {
     let mut r = Rng::new(cs);
     let udp = r.chance(1, 2);
@@ -1087,7 +1163,12 @@ fn main() {
             for i in 0..cases {
                 let cs = only.unwrap_or_else(|| mix(&[seed, cvh::rng::hash_str(&mode), shard, i]));
                 match mode.as_str() {
-                    "unbuffered" => case_unbuffered(&mut cx, cs),
+                    "unbuffered" => {
+                        case_unbuffered(&mut cx, cs);
+                        if cs % 8 == 0 {
+                            case_mixed_family(&mut cx, cs);
+                        }
+                    }
                     "buffered" => case_buffered(&mut cx, cs),
                     "stats" => case_stats(&mut cx, cs, None),
                     "contention" => case_contention(&mut cx, cs),
